@@ -511,20 +511,23 @@ Fixpoint mem_nat (n : nat) (l : list nat) : bool :=
 Definition covers (sp : list key) (res : list nat) (ks : list key) : bool :=
   forallb (fun k => mem_nat (locate sp k) res) ks.
 
-(* ---------------------------------------------------------------- the client is gone (crash) before the commit point *)
-(* what other clients can do with the locks the transaction left: a resolver that meets a lock on k checks the primary;
-   the primary was never committed (commit happens only after every flush was acknowledged) and its owner is gone, so
-   the first resolver decides "rolled back"; every lock is then resolved to the decided status *)
-Inductive pstat := PUndecided | PCommitted | PRolledBack.
-Record cst := { clocks : list key; cstat : pstat; ccommitted : list key; crolled : list key }.
-Definition crash_state (locks : list key) : cst :=
-  {| clocks := locks; cstat := PUndecided; ccommitted := []; crolled := [] |}.
+(* ---------------------------------------------------------------- the client is gone (crash) at ANY point of the transaction *)
+(* what other clients (or the client's own background resolve) do with the locks the transaction left. The status on the primary at
+   the crash is either undecided (the primary was not committed: any point before the commit point) or committed at ts c (the
+   crash hit after the primary commit, before / while the flushed locks were resolved). A resolver that meets a lock on k reads
+   the primary's status: an undecided primary whose owner is gone is rolled back by the first resolver (the decision is then
+   final), a committed primary stays committed; the lock on k is driven to THAT outcome. *)
+Inductive pstat := PUndecided | PCommitted (c : N) | PRolledBack.
+Record cst := { clocks : list key; cstat : pstat; ccommitted : list (key * N); crolled : list key }.
+Definition crash_state (locks : list key) (st0 : pstat) : cst :=
+  {| clocks := locks; cstat := st0; ccommitted := []; crolled := [] |}.
+Definition decide (st : pstat) : pstat := match st with PUndecided => PRolledBack | x => x end.
 Definition cresolve (c : cst) (k : key) : cst :=
   if key_in k (clocks c) then
-    let stat := match cstat c with PUndecided => PRolledBack | x => x end in
+    let stat := decide (cstat c) in
     {| clocks := filter (fun x => negb (bytes_eqb k x)) (clocks c); cstat := stat;
-       ccommitted := (match stat with PCommitted => k :: ccommitted c | _ => ccommitted c end);
-       crolled := (match stat with PCommitted => crolled c | _ => k :: crolled c end) |}
+       ccommitted := (match stat with PCommitted ts => (k, ts) :: ccommitted c | _ => ccommitted c end);
+       crolled := (match stat with PCommitted _ => crolled c | _ => k :: crolled c end) |}
   else c.
 Definition crun (c : cst) (ks : list key) : cst := fold_left cresolve ks c.
 
